@@ -546,7 +546,8 @@ int64_t carquet_rle_decode_levels(
             size_t bytes_per_group = (size_t)bit_width;
 
             for (int g = 0; g < num_groups && count < max_values; g++) {
-                if (pos + bytes_per_group > input_size) break;
+                /* A group cut short ends the stream: what is left of it is not a run header */
+                if (pos + bytes_per_group > input_size) return count;
 
                 /* Unpack 8 values */
                 uint32_t temp[8];
